@@ -1,6 +1,6 @@
 SPECIFICATION Spec
 CONSTANTS
-  W = 3
+  W = 2
   MaxBits = 5
   MaxShift = 6
 CONSTRAINT SizeBound
